@@ -16,7 +16,7 @@ def _ins_sort_stable(xs, key):
     return out
 
 
-@job('C02', 'C03', 'C14')
+@job('C02', 'C03', 'C14', 'C01', 'C07')
 def sorted_contracts(prop, tier, seed):
     fails = []
     n = 0
@@ -40,6 +40,15 @@ def sorted_contracts(prop, tier, seed):
             exp = _ins_sort_stable(list(xs), key=lambda v: v)
             if got != exp:
                 fails.append({'replay': 'none', 'key': 'sorted.cells:%r' % (xs,), 'expected': exp, 'observed': got})
+    # sorted(ints) == insertion sort, a new list, argument untouched (EXCEPT indices: builtins.sorted.ints)
+    for ln in range(L + 1):
+        for xs in itertools.product([0, 1, 2, 5], repeat=ln):
+            n += 1
+            arg = list(xs)
+            got = sorted(arg)
+            exp = _ins_sort_stable(list(xs), key=lambda v: v)
+            if got != exp or got is arg or arg != list(xs):
+                fails.append({'replay': 'none', 'key': 'sorted.ints:%r' % (xs,), 'expected': exp, 'observed': got})
     # sorted(d.items(), key=lambda v: v[1]): every entry once, non-decreasing by value (field-count warning)
     for trial in range(300 if tier == 'quick' else 3000):
         d = {}
